@@ -23,20 +23,37 @@ func init() {
 			printer.Fprint(&b, x.Fset, n)
 			return strings.Join(strings.Fields(b.String()), " ")
 		}
-		// names of methods called as plain statements `recv.M()` / `a.b.M()` directly in a block
-		calls := func(list []ast.Stmt) []string {
+		// names of methods called unconditionally, as plain statements `recv.M()` / `a.b.M()` directly in
+		// a block; a helper of the same package called that way is followed (two levels), so moving the
+		// two rebuild calls into a common helper keeps the fact.
+		var callsD func(list []ast.Stmt, depth int) []string
+		callsD = func(list []ast.Stmt, depth int) []string {
 			var out []string
 			for _, st := range list {
 				if es, ok := st.(*ast.ExprStmt); ok {
 					if ce, ok := es.X.(*ast.CallExpr); ok {
-						if se, ok := ce.Fun.(*ast.SelectorExpr); ok {
-							out = append(out, se.Sel.Name)
+						name := ""
+						switch f := ce.Fun.(type) {
+						case *ast.SelectorExpr:
+							name = f.Sel.Name
+						case *ast.Ident:
+							name = f.Name
+						}
+						if name == "" {
+							continue
+						}
+						out = append(out, name)
+						if depth > 0 && name != "BuildUniversalIndex" && name != "buildTFIDFSearcher" {
+							if fd := x.Func("internal/database", name); fd != nil && fd.Body != nil {
+								out = append(out, callsD(fd.Body.List, depth-1)...)
+							}
 						}
 					}
 				}
 			}
 			return out
 		}
+		calls := func(list []ast.Stmt) []string { return callsD(list, 2) }
 		has := func(xs []string, w string) bool {
 			for _, s := range xs {
 				if s == w {
